@@ -4,9 +4,12 @@
    FULL for merge sort and quick sort (the default): sorted + permutation for lists of every length, hence equal
    results and idempotence.  PARTIAL for heap sort and the "stable" (tim) sort: they terminate within their fuel and
    return a permutation of the input for every length (C10_heap_perm_partial, C10_tim_perm_partial); that their
-   output is ordered is checked by the correspondence run (all four kinds compared on every case) but not proved. *)
+   output is ordered is checked by the correspondence run (all four kinds compared on every case) but not proved.
+   ALONG AN AXIS (via the lane theorem of C08): sorting keeps the shape and every lane of the result is the sort of the
+   corresponding lane of the input — a permutation of it for every kind, ordered for quicksort and merge sort
+   (C10_sort_axis).  argsort / unique / argmax relations are checked by the correspondence run only. *)
 From Coq Require Import Permutation Sorted.
-From ArrRs Require Import Index Sort Sort_proofs.
+From ArrRs Require Import Index Axis Axis_proofs Broadcast_proofs Reduce Along_proofs Sort Sort_proofs Along_uses.
 
 Theorem C10_merge_sort : forall (T : Type) (ltb : T -> T -> bool),
   (forall x y, ltb x y = true -> le ltb x y) -> (forall x y z, le ltb x y -> le ltb y z -> le ltb x z) ->
@@ -38,6 +41,24 @@ Proof. exact @heap_sort_perm. Qed.
 Theorem C10_tim_perm_partial : forall (T : Type) (ltb : T -> T -> bool) (d : T) l,
   exists r, tim_sort ltb d l = Ok r /\ Permutation l r.
 Proof. exact @tim_sort_perm. Qed.
+
+(* sorting along an axis sorts every lane *)
+Theorem C10_sort_axis : forall (T : Type) (ltb : T -> T -> bool) (d : T),
+  (forall x y, ltb x y = true -> le ltb x y) -> (forall x y z, le ltb x y -> le ltb y z -> le ltb x z) ->
+  forall (a : arr T) z k,
+  wf a -> pos_shape (shape a) -> (Z.of_nat (ndim a) < two64)%Z -> axis_ok (ndim a) z ->
+  let ax := norm_nat (ndim a) z in
+  exists R, sort_arr ltb d a (Some z) (Ok k) = Ok R /\ wf R /\ shape R = shape a /\
+    forall c, in_range (shape a) c ->
+      let ln := elems (lane d a ax (remove_nth c ax)) in
+      get d R c = nth (nth ax c 0) (sorted_of ltb d k ln) d /\ Permutation ln (sorted_of ltb d k ln) /\
+      (k = Quicksort \/ k = Mergesort -> sorted ltb (sorted_of ltb d k ln)).
+Proof. exact @sort_axis_spec. Qed.
+
+Theorem C10_sorted_of_def : forall (T : Type) (ltb : T -> T -> bool) (d : T),
+  (forall x y, ltb x y = true -> le ltb x y) -> (forall x y z, le ltb x y -> le ltb y z -> le ltb x z) ->
+  forall k l, sort_list ltb d k l = Ok (sorted_of ltb d k l).
+Proof. intros T ltb d H1 H2 k l. exact (proj1 (sorted_of_spec ltb d H1 H2 k l)). Qed.
 
 (* Z satisfies the order hypotheses (non-vacuity of the section assumptions) and an 8-element instance *)
 Example C10_nonvacuous :
